@@ -116,6 +116,7 @@ if os.path.exists(OUT):
         done.add(l.split('\t')[0])
 TEST_TIMEOUT = int(os.environ.get('MUT_TEST_TIMEOUT', '400'))   # the unchanged suite takes 20-40 s
 N_RESULT_LINES = int(os.environ.get('MUT_RESULT_LINES', '9'))   # test binaries + doc-test runs of the unchanged workspace
+ONLY = os.environ.get('MUT_ONLY')   # regex on the mutant id: run only matching mutants
 STRIDE = int(os.environ.get('MUT_STRIDE', '1'))
 OFFSET = int(os.environ.get('MUT_OFFSET', '0'))
 for rel in FILES:
@@ -127,7 +128,7 @@ for rel in FILES:
             continue
         line_no = src.count('\n', 0, a) + 1
         mid = '%s:%d:%d:%s->%s' % (rel, line_no, a, old.strip() or '_', new.strip() or '_')
-        if mid in done:
+        if mid in done or (ONLY and not re.search(ONLY, mid)):
             continue
         open(path, 'w').write(src[:a] + new + src[b:])
         detail = ''
